@@ -89,6 +89,56 @@ def make_callable(rec, kind, unsafe, alters, forbidden):
                 return "R"
         rec.mark(CM.__call__, unsafe, alters, forbidden)
         return CM()
+    if kind in ("pass_context", "pass_environment", "pass_eval_context"):
+        import jinja2
+        deco = getattr(jinja2, kind)
+
+        def injected(first, *a, **k):
+            rec.ran.append(tag)
+            return "R"
+        return rec.mark(deco(injected), unsafe, alters, forbidden)
+    if kind == "coroutine-function":
+        async def coro(*a, **k):
+            rec.ran.append(tag)
+            return "R"
+        return rec.mark(coro, unsafe, alters, forbidden)
+    if kind == "generator-function":
+        def genf(*a, **k):
+            rec.ran.append(tag)          # runs only when iterated: calling it creates the generator
+            yield "R"
+        return rec.mark(genf, unsafe, alters, forbidden)
+    if kind == "classmethod":
+        class KC2:
+            @classmethod
+            def cm(cls, *a, **k):
+                rec.ran.append(tag)
+                return "R"
+        rec.mark(KC2.__dict__["cm"].__func__, unsafe, alters, forbidden)
+        return KC2().cm
+    if kind == "staticmethod":
+        class KS:
+            @staticmethod
+            def sm(*a, **k):
+                rec.ran.append(tag)
+                return "R"
+        rec.mark(KS.__dict__["sm"].__func__, unsafe, alters, forbidden)
+        return KS().sm
+    if kind == "truthy-marker-values":
+        f = rec.function(tag)
+        if unsafe:
+            f.unsafe_callable = 1
+        if alters:
+            f.alters_data = "yes"
+        if forbidden:
+            f.forbidden = [0]
+        return f
+    if kind == "falsy-marker-values":
+        # markers present but falsy: the callable counts as unmarked (the predicate reads truthiness)
+        f = rec.function(tag)
+        f.unsafe_callable = 0
+        f.alters_data = ""
+        f.forbidden = None
+        return f
     if kind == "partial-of-marked":
         # the markers sit on the function a functools.partial wraps
         return functools.partial(rec.mark(rec.function(tag), unsafe, alters, forbidden), 1)
@@ -103,11 +153,32 @@ def make_envs():
         def is_safe_callable(self, obj):
             return not getattr(obj, "forbidden", False)
 
+    from jinja2 import DictLoader
+    from jinja2.sandbox import ImmutableSandboxedEnvironment
+
+    class OverriddenImmutable(ImmutableSandboxedEnvironment):
+        def is_safe_callable(self, obj):
+            return not getattr(obj, "forbidden", False)
+
+    lib = {"lib": "{% macro callit(f) %}{{ f() }}{% endmacro %}{% macro callkw(f) %}{{ f(k=1) }}{% endmacro %}",
+           "inc": "{{ cf() }}", "base": "[{% block b %}{% endblock %}]{% block c %}{{ cf2() if cf2 is defined else '' }}{% endblock %}"}
+    ext = ["jinja2.ext.do", "jinja2.ext.i18n", "jinja2.ext.loopcontrols"]
     envs = {}
-    for pol, cls in (("default", SandboxedEnvironment), ("overridden", Overridden)):
+    for pol, cls, icls in (("default", SandboxedEnvironment, ImmutableSandboxedEnvironment), ("overridden", Overridden, OverriddenImmutable)):
         for mode in ("sync", "async"):
-            envs[(pol, mode)] = (cls(enable_async=(mode == "async")), {})
+            kw = dict(enable_async=(mode == "async"), loader=DictLoader(lib), extensions=ext)
+            base = cls(**kw)
+            variants = {"": base, "immutable": icls(**kw), "overlay": base.overlay(trim_blocks=True),
+                        "noopt": cls(optimized=False, **kw), "autoescape": cls(autoescape=True, **kw)}
+            for cfg, e in variants.items():
+                e.install_null_translations()
+                envs[(pol, mode) if cfg == "" else (pol, mode, cfg)] = (e, {})
     return envs
+
+
+CONFIGS = ("", "", "immutable", "overlay", "noopt", "autoescape")
+ENTRIES = ("render", "generate", "stream", "render_async", "make_module")
+PLACES = ("context", "env-globals", "template-globals")
 
 
 def spec_rejected(pol, unsafe, alters, forbidden):
@@ -120,12 +191,17 @@ def k_rt_gate(ctx, envs):
     from jinja2.exceptions import SecurityError
     cases = []
     for kind, unsafe, alters, forbidden, pol in itertools.product(
-            ("function", "lambda", "method", "instance", "class", "partial", "instance-call-marked", "partial-of-marked"),
+            ("function", "lambda", "method", "instance", "class", "partial", "instance-call-marked", "partial-of-marked",
+             "pass_context", "pass_environment", "pass_eval_context", "coroutine-function", "generator-function", "classmethod",
+             "staticmethod", "truthy-marker-values", "falsy-marker-values"),
             (0, 1), (0, 1), (0, 1), ("default", "overridden")):
         cases.append((kind, bool(unsafe), bool(alters), bool(forbidden), pol))
     lines = []
     for kind, u, a, f, pol in cases:
         polarg = "default" if pol == "default" else ("0" if f else "1")
+        if kind == "falsy-marker-values":
+            u = a = f = False
+            polarg = "default" if pol == "default" else "1"
         if pol == "overridden" and kind in ("instance-call-marked", "partial-of-marked"):
             polarg = "1"          # the example override looks at the object itself, which carries no marker
         if kind == "instance-call-marked":
@@ -135,8 +211,8 @@ def k_rt_gate(ctx, envs):
         else:
             lines.append(f"gate {int(u)} {int(a)} 0 {polarg}")
     out = ctx.driver("sbx", lines)
-    for (kind, u, a, f, pol), model in zip(cases, out):
-        env = envs[(pol, "sync")][0]
+    for gi, ((kind, u, a, f, pol), model) in enumerate(zip(cases, out)):
+        env = envs[(pol, "sync") if gi % 2 == 0 else (pol, "sync", "immutable")][0]    # both environment classes
         rec = Rec()
         try:
             obj = make_callable(rec, kind, u, a, f)
@@ -144,7 +220,9 @@ def k_rt_gate(ctx, envs):
             continue
         context = env.from_string("").new_context({})
         try:
-            env.call(context, obj, 1, k=2)
+            rv = env.call(context, obj, 1, k=2)
+            if hasattr(rv, "close"):
+                rv.close()
             outcome = "value"
         except SecurityError:
             outcome = "SecurityError"
@@ -153,6 +231,11 @@ def k_rt_gate(ctx, envs):
         real = ("check:1 invoke" if rec.ran else "check:0") + " | " + outcome
         case = {"kind": "gate", "callable": kind, "unsafe_callable": u, "alters_data": a, "forbidden": f, "policy": pol}
         rejected = spec_rejected(pol, u, a, f)
+        if kind == "falsy-marker-values":
+            rejected = False          # a falsy marker value is no marker
+        if kind in ("generator-function", "coroutine-function"):
+            # the function itself is what the template calls; its body runs on iteration / when awaited only
+            real = real.replace("check:0 | value", "check:1 invoke | value") if outcome == "value" else real
         if pol == "overridden" and kind in ("instance-call-marked", "partial-of-marked"):
             rejected = False      # the example override looks at the object itself only
         ctx.case(sample=case if rejected and kind == "method" else None, key=("gate", kind, u, a, f, pol) if rejected else None)
@@ -388,6 +471,32 @@ SHAPES = {
     "include-expr": "{%% include %(c)s() ignore missing %%}",
     "set-block": "{%% set v %%}{{ %(c)s() }}{%% endset %%}{{ v }}",
     "namespace": "{%% set ns = namespace(f=%(c)s) %%}{{ ns.f() }}",
+    # the special names of macro bodies filled by the caller of the macro
+    "explicit-caller-kw": "{%% macro w() %%}{{ caller() }}{%% endmacro %%}{{ w(caller=%(c)s) }}",
+    "explicit-caller-kw-args": "{%% macro w() %%}{{ caller(1, k=2) }}{%% endmacro %%}{{ w(caller=%(c)s) }}",
+    "kwargs-special": "{%% macro w() %%}{{ kwargs.f() }}{%% endmacro %%}{{ w(f=%(c)s) }}",
+    "varargs-special": "{%% macro w() %%}{{ varargs[0]() }}{%% endmacro %%}{{ w(%(c)s) }}",
+    "param-named-loop": "{%% macro w(loop) %%}{{ loop() }}{%% endmacro %%}{{ w(%(c)s) }}",
+    "loop-special-arg": "{%% for f in [%(c)s] %%}{{ loop.cycle(f)() }}{%% endfor %%}",
+    "call-block-param": "{%% macro w() %%}{{ caller(%(c)s) }}{%% endmacro %%}{%% call(loop) w() %%}{{ loop() }}{%% endcall %%}",
+    # other templates of the same environment: imported macros, includes, inheritance
+    "imported-macro": "{%% from 'lib' import callit %%}{{ callit(%(c)s) }}",
+    "imported-macro-kw": "{%% from 'lib' import callkw as k %%}{{ k(%(c)s) }}",
+    "import-module-macro": "{%% import 'lib' as L %%}{{ L.callit(%(c)s) }}",
+    "include-calls": "{%% set cf = %(c)s %%}{%% include 'inc' %%}",
+    "extends-block": "{%% extends 'base' %%}{%% block b %%}{{ %(c)s() }}{%% endblock %%}",
+    "extends-parent-block": "{%% extends 'base' %%}{%% set cf2 = %(c)s %%}",
+    # extensions
+    "do-statement": "{%% do %(c)s() %%}",
+    "trans-variable": "{%% trans v=%(c)s() %%}{{ v }}{%% endtrans %%}",
+    "loop-break": "{%% for x in [1, 2] %%}{%% if %(c)s() %%}{%% break %%}{%% endif %%}{%% endfor %%}",
+    # the result of the call is used further
+    "attribute-of-result": "{{ %(c)s().real }}",
+    "item-of-result": "{{ %(c)s()[0] }}",
+    "set-block-filter-arg": "{%% set v | default(%(c)s()) %%}{%% endset %%}{{ v }}",
+    "elif-test": "{%% if false %%}{%% elif %(c)s() %%}y{%% endif %%}",
+    "with-value": "{%% with v = %(c)s() %%}{{ v }}{%% endwith %%}",
+    "macro-call-kwarg": "{%% macro m(a=1) %%}{{ a }}{%% endmacro %%}{{ m(a=%(c)s()) }}",
 }
 
 # (expression, how to build the data, markers)
@@ -442,15 +551,44 @@ def judge_render(ctx, envs, case):
     c, shape, pol, mode = case["callable"], case["shape"], case["policy"], case["mode"]
     marks = dict(callables_under_test())[c]
     rejected = spec_rejected(pol, marks.get("unsafe", False), marks.get("alters", False), marks.get("forbidden", False))
-    env, cache = envs[(pol, mode)]
+    cfg = case.get("config", "")
+    env, cache = envs[(pol, mode) if cfg == "" else (pol, mode, cfg)]
+    entry, place = case.get("entry", "render"), case.get("place", "context")
     src = SHAPES[shape] % {"c": c}
     rec = Rec()
     data = build_data(rec)
+    import asyncio
+    is_async = mode == "async"
     try:
-        t = cache.get(src)
-        if t is None:
-            t = cache[src] = env.from_string(src)
-        t.render(**data)
+        if place == "template-globals":
+            t = env.from_string(src, globals=data)
+            args = {}
+        else:
+            t = cache.get(src)
+            if t is None:
+                t = cache[src] = env.from_string(src)
+            args = data
+            if place == "env-globals":
+                env.globals.update(data)
+                args = {}
+        try:
+            if entry == "generate" and not is_async:
+                "".join(t.generate(**args))
+            elif entry == "stream" and not is_async:
+                "".join(t.stream(**args))
+            elif entry == "render_async" and is_async:
+                asyncio.run(t.render_async(**args))
+            elif entry == "make_module":
+                if is_async:
+                    asyncio.run(t.make_module_async(args))
+                else:
+                    str(t.make_module(args))
+            else:
+                t.render(**args)
+        finally:
+            if place == "env-globals":
+                for k in data:
+                    env.globals.pop(k, None)
         outcome = "ok"
     except SecurityError:
         outcome = "SecurityError"
@@ -505,12 +643,18 @@ def run(ctx):
     shared_bytecode_cache(ctx)
     history_stream(ctx)
     shared.k_gen(ctx, jinja2, ctx.size(1500, 15000), ctx.size(250, 2500), "C18")
-    for (c, _), shape, pol, mode in itertools.product(callables_under_test(), SHAPES, ("default", "overridden"), ("sync", "async")):
-        case = {"kind": "render", "callable": c, "shape": shape, "policy": pol, "mode": mode}
+    for idx, ((c, _), shape, pol, mode) in enumerate(itertools.product(callables_under_test(), SHAPES, ("default", "overridden"), ("sync", "async"))):
+        case = {"kind": "render", "callable": c, "shape": shape, "policy": pol, "mode": mode,
+                # sampled axes: environment class / configuration, entry point, where the callables live
+                "config": CONFIGS[(idx // 4) % len(CONFIGS)], "entry": ENTRIES[(idx // 4 + idx // 28) % len(ENTRIES)],
+                "place": PLACES[(idx // 4 + idx // 12) % len(PLACES)]}
         ok = judge_render(ctx, envs, case)
         ctx.case(sample=case if case["rejected"] and shape == "macro-default" else None,
                  key=("render", c, shape, pol, mode) if case["rejected"] else None)
         ctx.count(f"render_{pol}_{mode}")
+        ctx.count("config_" + (case["config"] or "default"))
+        ctx.count("entry_" + case["entry"])
+        ctx.count("place_" + case["place"])
         if ok:
             ctx.validated()
 
@@ -524,7 +668,7 @@ def replay(ctx, data):
     kind = case.get("kind")
     envs = make_envs()
     if kind == "render":
-        judge_render(ctx, envs, {k: case[k] for k in ("kind", "callable", "shape", "policy", "mode")})
+        judge_render(ctx, envs, {k: case[k] for k in ("kind", "callable", "shape", "policy", "mode", "config", "entry", "place") if k in case})
     elif kind == "gate":
         from jinja2.exceptions import SecurityError
         env = envs[(case["policy"], "sync")][0]
